@@ -9,6 +9,7 @@
    numbers, fragmentation flags, length sources); `c03_rel` demands equal accepted
    packets and the same rejection cause (layer / required / available, or the
    same content error with the same offending value). *)
+From EP Require Parse.GenAccessOk.   (* the field accessors, re-translated from the Rust source on every run (Gen/Accessors.v), equal the hand models the theorems below are about *)
 From EP Require Parse.ConstsAllOk.   (* every numeric `pub const` of the crate, regenerated from the source on every run, has its RFC / IANA value *)
 From EP Require Parse.ConstsOk.
 From EP Require Import Base.Bytes Parse.Types Parse.Slices Parse.Cursor Parse.View
